@@ -88,7 +88,7 @@ class Monitor:
         new = set(sys.modules) - self.mods_before
         if new:
             ev.append(('sys.modules-grew', tuple(sorted(new))[:5]))
-        if getattr(builtins, '_vf_canary_cold_imported', False) or 'vf_canary_cold' in sys.modules:
+        if getattr(builtins, '_vf_canary_cold_imported', False) or 'vf_canary_cold' in sys.modules or any(m.startswith('vf_cold_pkg') for m in sys.modules):
             ev.append(('cold-module-imported',))
         return ev
 
